@@ -20,6 +20,9 @@ def run(chk, replay=None):
     # names that look like UUIDs are always exercised (look-up by name must not be confused with look-up by id)
     if chk.seed % 6 != 2:
         file_common.run_file_check(chk, ['c03a_' + t, 'c03c_' + t], [], judge=judge, opts={'names': 2, 'ignore_handles': True})
+    # names that differ only in case are always exercised, also as members of link containers (group members, references)
+    if chk.seed % 6 != 1:
+        file_common.run_file_check(chk, ['c03f_' + t, 'c03g_' + t], [], judge=judge, opts={'names': 1, 'ignore_handles': True})
     # direction B: random API programs recorded from the real library, validated against NixFileTrace.tla
     file_common.run_traces(chk, lambda e: e['a'] in ('Create', 'Delete', 'AddLink', 'RemoveLink', 'Open'), 24 if chk.thorough else 6, 1500 if chk.thorough else 400)
     chk.exhaustive = False
